@@ -79,6 +79,14 @@ def handle (line : String) : String :=
       let d : Defaults := { Defaults.std with strict := dlvl == "S" }
       showR (do let f ← Pe.field T d (unhex hx.toList) (optS name) ec (lvl == "S") none false; Pe.encField T ec f)
     | _, _ => "bad-args"
+  | ["SETF", ver, lvl, ec, seg, name, hx] =>
+    match tablesFor ver, parseEC ec with
+    | some T, some ec =>
+      showR (do
+        let sg ← Pe.segmentNew T seg
+        let sg ← Pe.segSetStr T Defaults.std sg name (unhex hx.toList) ec (lvl == "S")
+        Pe.encSegment T ec sg)
+    | _, _ => "bad-args"
   | ["SEG", ver, lvl, dlvl, ec, hx] =>
     match tablesFor ver, parseEC ec with
     | some T, some ec =>
